@@ -144,36 +144,37 @@ inductive LOut where
   | released
   deriving Repr, DecidableEq
 
-def lstep (s : LockSt) : Ev → LockSt × LOut
-  | .tick d => ({ s with now := s.now + d }, .none)
-  | .lockTry i ttl =>
+def doLockTry (s : LockSt) (i ttl : Nat) : LockSt × LOut :=
+  match durationGuard ttl with
+  | none => (s, .invalidTTL)
+  | some td =>
+    if s.lease > s.now then (s, .conflict)
+    else ({ s with lease := s.now + td, holders := setHolder s.holders i (s.now + td) }, .acquired (s.now + td))
+
+def doRenew (s : LockSt) (i ttl : Nat) : LockSt × LOut :=
+  match s.holder i with
+  | none => (s, .notHolder)
+  | some prev =>
     match durationGuard ttl with
     | none => (s, .invalidTTL)
     | some td =>
-      if s.lease > s.now then (s, .conflict)
-      else
-        let tok := s.now + td
-        ({ s with lease := tok, holders := setHolder s.holders i tok }, .acquired tok)
-  | .renew i ttl =>
-    match s.holder i with
-    | none => (s, .notHolder)
-    | some prev =>
-      match durationGuard ttl with
-      | none => (s, .invalidTTL)
-      | some td =>
-        if s.lease = 0 then (s, .expired)
-        else if s.now > s.lease then (s, .expired)
-        else if s.lease ≠ prev then (s, .expired)
-        else
-          let tok := s.now + td
-          ({ s with lease := tok, holders := setHolder s.holders i tok }, .renewed tok)
-  | .unlock i =>
-    match s.holder i with
-    | none => (s, .notHolder)
-    | some tok =>
-      let hs := dropHolder s.holders i
-      if s.lease = tok then ({ s with lease := 0, holders := hs }, .released)
-      else ({ s with holders := hs }, .expired)
+      if s.lease = 0 then (s, .expired)
+      else if s.now > s.lease then (s, .expired)
+      else if s.lease ≠ prev then (s, .expired)
+      else ({ s with lease := s.now + td, holders := setHolder s.holders i (s.now + td) }, .renewed (s.now + td))
+
+def doUnlock (s : LockSt) (i : Nat) : LockSt × LOut :=
+  match s.holder i with
+  | none => (s, .notHolder)
+  | some tok =>
+    if s.lease = tok then ({ s with lease := 0, holders := dropHolder s.holders i }, .released)
+    else ({ s with holders := dropHolder s.holders i }, .expired)
+
+def lstep (s : LockSt) : Ev → LockSt × LOut
+  | .tick d => ({ s with now := s.now + d }, .none)
+  | .lockTry i ttl => doLockTry s i ttl
+  | .renew i ttl => doRenew s i ttl
+  | .unlock i => doUnlock s i
 
 def lrun (s : LockSt) : List Ev → LockSt
   | [] => s
